@@ -325,6 +325,7 @@ func cmdSelftest(args []string) int {
 	// 5h. the generic rules of round 5
 	selftestRound5(check)
 	selftestAnticipatory(check)
+	selftestDerivedKey(check)
 
 	// 6. every rule table entry that names a function has the documented key shape
 	var badKeys []string
